@@ -2,3 +2,4 @@ import XsModel.Bytes
 import XsModel.Part
 import XsModel.Frame
 import XsModel.Store
+import XsModel.Run
